@@ -1,8 +1,9 @@
 (* Property C15 — sequential -> joint plan conversion keeps actions, agent order and outcome.
    Statements only; proofs live in Proofs/C15_*.v.  Model: Model/PlanConverter.v; spec: Spec/JointPlan.v. *)
 From Coq Require Import List Ascii String Bool Arith PrimFloat.
-From Verif Require Import Base.Result Base.Str Model.Domain Model.Exec Spec.Pddl Spec.JointPlan Model.PlanConverter
-  Proofs.C15_Loop Proofs.C15_Main.
+From Verif Require Import Base.Result Base.Str Base.Sexp Base.Float Model.Tokenizer Model.Domain Model.Exec
+  Spec.Pddl Spec.Grammar Spec.JointPlan Model.PlanConverter
+  Proofs.C15_Loop Proofs.C15_Views Proofs.C15_Effect Proofs.C15_Sound Proofs.C15_Main Proofs.C15_Findings.
 Import ListNotations.
 Open Scope string_scope.
 Open Scope list_scope.
@@ -51,9 +52,95 @@ Theorem C15_nop_is_reserved :
   = Ok [[("move", ["a1"])]].
 Proof. exact nop_named_action_is_lost. Qed.
 
+(* ---------------------------------------------------------------------------------------------------------
+   Soundness.  FULL STATEMENT (the property): for every domain text read by the model's parser and by the spec's
+   grammar reading, every initial state, plan text, agent list and flag: whenever the converter returns, the result
+   is a sound regrouping — if the extracted plan is valid under the spec interpreter, every step of the joint plan is a
+   joint action of members that are applicable in the step's pre-state and pairwise NON-INTERFERING, and the joint
+   run ends in the state of the sequential run. *)
+Definition C15_sound_statement : Prop :=
+  forall (domain_text : string) (nums : string -> option float) (eps : float) (tt : tytree) (objs : objects)
+         (init : state) (agents : list string) (flag : bool) (t : text),
+  match parse MFile (s2t domain_text) with
+  | Ok e =>
+      match parse_domain nums e, read_domain nums e with
+      | Ok d, Some sd =>
+          forall pa js,
+            extract_plan_actions agents t = Ok pa -> no_nop_action pa ->
+            convert_plan d eps agents flag insertion_ok init t = Ok js ->
+            sound_regrouping float_beq {| jw_eps := eps; jw_tt := tt; jw_objs := objs; jw_actions := sd_actions sd |}
+                             init (map fst pa) js
+      | _, _ => True
+      end
+  | Err _ => True
+  end.
+
+(* REFUTED on the current code (finding D70, open): the converter never collects what a precondition reads, so it
+   groups (needz a2 t1) with (delz a3), which deletes the (z) that needz requires. *)
+Theorem C15_sound_refuted : ~ C15_sound_statement.
+Proof. exact sound_statement_refuted. Qed.
+
+(* PARTIAL (everything but "no precondition is touched"): for every domain, initial state, plan text, agent list and
+   flag — if the extracted plan is valid for the library's executor and the preconditions of its actions evaluate in
+   every state (no division by a fluent), then executing the converter's joint plan with the library's apply_actions
+   succeeds, every member of every step is applicable in the pre-state of its step, and the final state is the one of
+   the sequential execution, as a set of facts and a map of fluents.  Unbounded: induction on the greedy loop;
+   two members commute because the (repaired) test keeps apart actions one of which adds what the other deletes,
+   writes what the other writes, or changes what the other's effects read. *)
+Theorem C15_outcome : forall dom eps agents flag init t pa js fin,
+  extract_plan_actions agents t = Ok pa -> no_nop_action pa ->
+  Forall (fun p => pre_total dom eps (fst p)) pa ->
+  run_sequential dom eps init (map fst pa) = Ok fin ->
+  convert_plan dom eps agents flag insertion_ok init t = Ok js ->
+  exists fin', run_joint dom eps init js = Ok fin' /\ seqv fin' fin /\ steps_applicable dom eps init js.
+Proof. exact convert_outcome_lemma. Qed.
+
+(* the lemma about the test itself: what insertion_ok establishes between a member already in the joint action and the
+   action to insert (the collected sets of the member are part of the accumulated sets) *)
+Theorem C15_test_implies_compat : forall acc Sa Sb,
+  sets_incl Sa acc -> insertion_ok acc Sb = true -> compat Sa Sb.
+Proof. exact insertion_ok_compat. Qed.
+
+(* the hypotheses of C15_outcome are satisfiable, and the example (3 agents, 6 actions, one forced
+   sequentialisation) is converted as expected and is a sound regrouping under the spec interpreter *)
+Theorem C15_example :
+  extract_plan_actions agents_ex plan_ex <> Err EFuel /\
+  Forall (fun c => pre_total mdom Proofs.C15_Findings.eps c) calls_ex /\
+  (exists fin, run_sequential mdom Proofs.C15_Findings.eps Proofs.C15_Findings.init calls_ex = Ok fin) /\
+  convert_plan mdom Proofs.C15_Findings.eps agents_ex true insertion_ok Proofs.C15_Findings.init plan_ex = Ok js_ex /\
+  sound_regrouping float_beq w Proofs.C15_Findings.init calls_ex js_ex.
+Proof.
+  split; [rewrite ex_extracted; discriminate|].
+  split; [exact ex_pre_total|]. split; [exact ex_sequential_valid|]. split; [exact ex_converted|exact ex_sound].
+Qed.
+
+(* before the repairs D25 and D71 the outcome itself was wrong: the test of that code let through a joint plan that
+   ends in another state than the sequential plan *)
+Theorem C15_before_D25_refuted :
+  exists js, convert_plan mdom Proofs.C15_Findings.eps agents25 true insertion_ok_before Proofs.C15_Findings.init plan25 = Ok js /\
+  match run_sequential mdom Proofs.C15_Findings.eps Proofs.C15_Findings.init calls25, run_joint mdom Proofs.C15_Findings.eps Proofs.C15_Findings.init js with
+  | Ok a, Ok b => atom_in ("z", []) (facts a) && negb (atom_in ("z", []) (facts b))
+  | _, _ => false
+  end = true.
+Proof. eexists. split; [exact w25_before|exact w25_before_other_state]. Qed.
+
+Theorem C15_before_D71_refuted :
+  exists js, convert_plan mdom Proofs.C15_Findings.eps agents71 true insertion_ok_before Proofs.C15_Findings.init plan71 = Ok js /\
+  match run_sequential mdom Proofs.C15_Findings.eps Proofs.C15_Findings.init calls71, run_joint mdom Proofs.C15_Findings.eps Proofs.C15_Findings.init js with
+  | Ok a, Ok b => fluent_is a ("f", ["a1"]) 1%float && fluent_is b ("f", ["a1"]) 5%float
+  | _, _ => false
+  end = true.
+Proof. eexists. split; [exact w71_before|exact w71_before_other_state]. Qed.
+
 Print Assumptions C15_structure.
 Print Assumptions C15_structure_loop.
 Print Assumptions C15_fuel_suffices.
 Print Assumptions C15_fuel_never_exhausted.
 Print Assumptions C15_step_sizes.
 Print Assumptions C15_nop_is_reserved.
+Print Assumptions C15_sound_refuted.
+Print Assumptions C15_outcome.
+Print Assumptions C15_test_implies_compat.
+Print Assumptions C15_example.
+Print Assumptions C15_before_D25_refuted.
+Print Assumptions C15_before_D71_refuted.
